@@ -587,3 +587,90 @@ impl<F> Drop for Arena<F> {
         }
     }
 }
+
+/// Heap cell that owns a primitive while `'static` shared references to it are handed to
+/// futures. The box is turned into a raw pointer once and never moved again, so the
+/// references stay valid under the aliasing model; the owner must outlive every borrower
+/// (worlds drop futures and guards first).
+pub struct Owned<T> {
+    ptr: *mut T,
+}
+impl<T> Owned<T> {
+    pub fn new(v: T) -> (Owned<T>, &'static T) {
+        let ptr = Box::into_raw(Box::new(v));
+        // Safety: the allocation lives until `Owned` is dropped
+        (Owned { ptr }, unsafe { &*ptr })
+    }
+}
+impl<T> Drop for Owned<T> {
+    fn drop(&mut self) {
+        // Safety: created by Box::into_raw, dropped once
+        unsafe { drop(Box::from_raw(self.ptr)) }
+    }
+}
+
+// ---------------------------------------------------------------- watchdog (hang = crash)
+
+use std::sync::atomic::{AtomicU64, AtomicUsize, Ordering};
+const HB_SLOTS: usize = 128;
+#[allow(clippy::declare_interior_mutable_const)]
+const HB0: AtomicU64 = AtomicU64::new(0);
+static HEARTBEATS: [AtomicU64; HB_SLOTS] = [HB0; HB_SLOTS];
+static HB_NEXT: AtomicUsize = AtomicUsize::new(0);
+thread_local! {
+    static HB_MINE: std::cell::Cell<usize> = const { std::cell::Cell::new(usize::MAX) };
+}
+
+/// Called by every simulation thread at least once per run (L3: per scheduling step).
+#[inline]
+pub fn heartbeat() {
+    HB_MINE.with(|m| {
+        let mut i = m.get();
+        if i == usize::MAX {
+            i = HB_NEXT.fetch_add(1, Ordering::SeqCst) % HB_SLOTS;
+            m.set(i);
+        }
+        HEARTBEATS[i].fetch_add(1, Ordering::Relaxed);
+    });
+}
+
+/// The thread is done (or idle): stop watching it.
+pub fn heartbeat_done() {
+    HB_MINE.with(|m| {
+        let i = m.get();
+        if i != usize::MAX {
+            HEARTBEATS[i].store(u64::MAX, Ordering::SeqCst);
+        }
+    });
+}
+
+/// A library call that never returns (e.g. a corrupted list that became a cycle) would hang
+/// the worker forever. The watchdog turns that into an abort, which the parent process then
+/// isolates and reports like any other crash.
+pub fn start_watchdog(limit_s: u64) {
+    std::thread::spawn(move || {
+        let mut last = [0u64; HB_SLOTS];
+        let mut stale = [0u64; HB_SLOTS];
+        loop {
+            std::thread::sleep(std::time::Duration::from_secs(1));
+            let n = HB_NEXT.load(Ordering::SeqCst).min(HB_SLOTS);
+            for i in 0..n {
+                let v = HEARTBEATS[i].load(Ordering::SeqCst);
+                if v == u64::MAX || v == 0 {
+                    stale[i] = 0;
+                    continue;
+                }
+                if v == last[i] {
+                    stale[i] += 1;
+                    if stale[i] >= limit_s {
+                        eprintln!("watchdog: a simulation thread made no progress for {} s (a library call does not return); aborting", limit_s);
+                        std::process::abort();
+                    }
+                } else {
+                    stale[i] = 0;
+                    last[i] = v;
+                }
+            }
+        }
+    });
+}
